@@ -91,8 +91,7 @@ def scale_product_term(qm, inp_scale, x_in, dtype):
     sp = abs(float(inp_scale)) * float(qw._scale.detach().to(torch.float64).abs().min())
     if sp <= 0:
         return 0.0
-    mag = F.linear(x_in.to(torch.float64).abs(), qw.dequantize().detach().to(torch.float64).abs())
-    return float(mag.max()) / sp * gen.ETA[dtype]
+    return 0.0  # (no allowance any more: the scale product is formed in float32, D46)
 
 
 def exec_case(case):
